@@ -8,7 +8,7 @@
     (which C16 ties to `_MemoryFile` and, by correspondence, to every backend's file objects).
   Every statement is for all byte strings (any length, any byte values), all chunk sizes,
   all short-read patterns, all piece boundaries, any previous content of the file.
-  The text layer (encodings, newline translation) is validated by the harness only.
+  The text layer (encodings, newline translation, make_stream layering) is FsProofs/TextLaws.lean.
   Tree at b5a3d6c: `chunk_size=0` means the 1 MiB default.
 -/
 import FsModel.File
